@@ -154,15 +154,7 @@ def desugar_chain(cx, fn_by_path, ci, stages, line):
         c, cl_local = _closure_of(d, fn_by_path, f, cl_op)
         if c is None:
             raise ValueError("adaptor argument is not a closure")
-        CR = cx.local()
-        st = [{"k": "A", "p": [CR, []], "r": {"k": "ref", "mut": True, "p": [cl_local, []]}, "s": line}]
-        term = {"k": "call", "f": {"path": c["path"], "name": c["name"], "local": True, "krate": c.get("krate"), "substs": [], "closure": c["path"]},
-                "args": [{"m": [CR, []]}] + args, "dest": [dest, []], "t": nxt, "u": None, "s": line, "fs": line}
-        bi = cx.block(st, term)
-        if len(term["args"]) != c["argc"]:
-            raise ValueError("closure arity")
-        pending_inline.append((bi, c))
-        return bi
+        return _closure_call_block(cx, fn_by_path, cl_op, args, dest, nxt, line, pending_inline)
 
     dest = cons["dest"]
     after = cons.get("t")
@@ -412,7 +404,11 @@ def _closure_call_block(cx, fn_by_path, cl_op, args, dest, nxt, line, pending):
     if c is None:
         raise ValueError("adaptor argument is not a closure")
     CR = cx.local()
-    st = [{"k": "A", "p": [CR, []], "r": {"k": "ref", "mut": True, "p": [cl_local, []]}, "s": line}]
+    by_ref = d["types"][c["locals"][1][0]].get("k") == "ref" if len(c["locals"]) > 1 else True
+    if by_ref:
+        st = [{"k": "A", "p": [CR, []], "r": {"k": "ref", "mut": True, "p": [cl_local, []]}, "s": line}]
+    else:  # FnOnce: the closure is passed by value
+        st = [{"k": "A", "p": [CR, []], "r": {"k": "use", "o": {"m": [cl_local, []]}}, "s": line}]
     term = {"k": "call", "f": {"path": c["path"], "name": c["name"], "local": True, "krate": c.get("krate"), "substs": [], "closure": c["path"]},
             "args": [{"m": [CR, []]}] + args, "dest": [dest, []], "t": nxt, "u": None, "s": line, "fs": line}
     if len(term["args"]) != c["argc"]:
@@ -420,6 +416,148 @@ def _closure_call_block(cx, fn_by_path, cl_op, args, dest, nxt, line, pending):
     bi = cx.block(st, term)
     pending.append((bi, c))
     return bi
+
+
+OPTION_COMBINATORS = {"is_none_or", "is_some_and", "map_or", "map_or_else", "map", "and_then", "unwrap_or_else", "filter", "or_else"}
+
+
+def _is_option_call(t):
+    if t["k"] != "call" or "f" not in t:
+        return False
+    f = t["f"]
+    return (not f.get("local")) and f.get("adt") == "std::option::Option" and f.get("name") in OPTION_COMBINATORS
+
+
+def desugar_option_call(cx, fn_by_path, bi, line):
+    """`o.map_or(d, f)`, `o.is_none_or(p)`, `o.and_then(f)` ... as the `match o { None => .., Some(x) => .. }`
+    it abbreviates, with the closure bodies inlined."""
+    d, f = cx.d, cx.f
+    t = f["blocks"][bi]["term"]
+    name = t["f"]["name"]
+    args = t["args"]
+    o = _plain_local(args[0])
+    if o is None or "m" not in args[0]:
+        raise ValueError("receiver is not a moved local")
+    dest, after = t["dest"], t.get("t")
+    if after is None:
+        raise ValueError("diverging call")
+    pending = []
+    D = cx.local()
+    NONE_B = cx.block()
+    SOME_B = cx.block()
+    UNREACH = cx.block([], {"k": "unreachable"})
+    X = cx.local()
+    some_payload = {"k": "use", "o": {"m": [o, [["d", "Some", 1], ["f", 0, "0", "std::option::Option", "Some"]]]}}
+    f["blocks"][SOME_B]["st"] = [{"k": "A", "p": [X, []], "r": some_payload, "s": line}]
+
+    def const_bool(v):
+        return {"k": "use", "o": {"k": {"ty": cx.bool_ty, "bool": v}}}
+
+    def none_agg():
+        return {"k": "agg", "agg": "adt", "adt": "std::option::Option", "variant": "None", "vidx": 0, "names": [], "fields": []}
+
+    def some_agg(l):
+        return {"k": "agg", "agg": "adt", "adt": "std::option::Option", "variant": "Some", "vidx": 1, "names": ["0"], "fields": [{"m": [l, []]}]}
+
+    def goto(b, to):
+        f["blocks"][b]["term"] = {"k": "goto", "t": to}
+
+    def assign(b, rv):
+        f["blocks"][b]["st"].append({"k": "A", "p": dest, "r": rv, "s": line})
+
+    if name in ("is_none_or", "is_some_and"):
+        assign(NONE_B, const_bool(name == "is_none_or"))
+        goto(NONE_B, after)
+        R = cx.local(cx.bool_ty)
+        fin = cx.block([{"k": "A", "p": dest, "r": {"k": "use", "o": {"m": [R, []]}}, "s": line}], {"k": "goto", "t": after})
+        cb = _closure_call_block(cx, fn_by_path, args[1], [{"m": [X, []]}], R, fin, line, pending)
+        goto(SOME_B, cb)
+    elif name == "map_or":
+        assign(NONE_B, {"k": "use", "o": args[1]})
+        goto(NONE_B, after)
+        R = cx.local()
+        fin = cx.block([{"k": "A", "p": dest, "r": {"k": "use", "o": {"m": [R, []]}}, "s": line}], {"k": "goto", "t": after})
+        cb = _closure_call_block(cx, fn_by_path, args[2], [{"m": [X, []]}], R, fin, line, pending)
+        goto(SOME_B, cb)
+    elif name == "map_or_else":
+        R0 = cx.local()
+        fin0 = cx.block([{"k": "A", "p": dest, "r": {"k": "use", "o": {"m": [R0, []]}}, "s": line}], {"k": "goto", "t": after})
+        cb0 = _closure_call_block(cx, fn_by_path, args[1], [], R0, fin0, line, pending)
+        goto(NONE_B, cb0)
+        R = cx.local()
+        fin = cx.block([{"k": "A", "p": dest, "r": {"k": "use", "o": {"m": [R, []]}}, "s": line}], {"k": "goto", "t": after})
+        cb = _closure_call_block(cx, fn_by_path, args[2], [{"m": [X, []]}], R, fin, line, pending)
+        goto(SOME_B, cb)
+    elif name == "map":
+        assign(NONE_B, none_agg())
+        goto(NONE_B, after)
+        R = cx.local()
+        fin = cx.block([{"k": "A", "p": dest, "r": some_agg(R), "s": line}], {"k": "goto", "t": after})
+        cb = _closure_call_block(cx, fn_by_path, args[1], [{"m": [X, []]}], R, fin, line, pending)
+        goto(SOME_B, cb)
+    elif name == "and_then":
+        assign(NONE_B, none_agg())
+        goto(NONE_B, after)
+        R = cx.local()
+        fin = cx.block([{"k": "A", "p": dest, "r": {"k": "use", "o": {"m": [R, []]}}, "s": line}], {"k": "goto", "t": after})
+        cb = _closure_call_block(cx, fn_by_path, args[1], [{"m": [X, []]}], R, fin, line, pending)
+        goto(SOME_B, cb)
+    elif name == "unwrap_or_else":
+        R0 = cx.local()
+        fin0 = cx.block([{"k": "A", "p": dest, "r": {"k": "use", "o": {"m": [R0, []]}}, "s": line}], {"k": "goto", "t": after})
+        cb0 = _closure_call_block(cx, fn_by_path, args[1], [], R0, fin0, line, pending)
+        goto(NONE_B, cb0)
+        assign(SOME_B, {"k": "use", "o": {"m": [X, []]}})
+        goto(SOME_B, after)
+    elif name == "or_else":
+        R0 = cx.local()
+        fin0 = cx.block([{"k": "A", "p": dest, "r": {"k": "use", "o": {"m": [R0, []]}}, "s": line}], {"k": "goto", "t": after})
+        cb0 = _closure_call_block(cx, fn_by_path, args[1], [], R0, fin0, line, pending)
+        goto(NONE_B, cb0)
+        assign(SOME_B, some_agg(X))
+        goto(SOME_B, after)
+    elif name == "filter":
+        assign(NONE_B, none_agg())
+        goto(NONE_B, after)
+        XR = cx.local()
+        B = cx.local(cx.bool_ty)
+        swb = cx.block()
+        keep = cx.block([{"k": "A", "p": dest, "r": some_agg(X), "s": line}], {"k": "goto", "t": after})
+        drop_ = cx.block([{"k": "A", "p": dest, "r": none_agg(), "s": line}], {"k": "goto", "t": after})
+        cb = _closure_call_block(cx, fn_by_path, args[1], [{"m": [XR, []]}], B, swb, line, pending)
+        f["blocks"][cb]["st"].insert(0, {"k": "A", "p": [XR, []], "r": {"k": "ref", "mut": False, "p": [X, []]}, "s": line})
+        f["blocks"][swb]["term"] = {"k": "switch", "d": {"m": [B, []]}, "vals": [0], "tgts": [drop_], "otherwise": keep, "s": line}
+        goto(SOME_B, cb)
+    else:
+        raise ValueError("unsupported combinator " + name)
+    blk = f["blocks"][bi]
+    blk["st"] = blk["st"] + [{"k": "A", "p": [D, []], "r": {"k": "disc", "p": [o, []], "adt": "std::option::Option"}, "s": line}]
+    blk["term"] = {"k": "switch", "d": {"m": [D, []]}, "vals": [0, 1], "tgts": [NONE_B, SOME_B], "otherwise": UNREACH, "s": line}
+    inlined = []
+    for b2, c in pending:
+        inline_call(f, b2, copy.deepcopy(c))
+        inlined.append(c["path"])
+    return inlined
+
+
+def find_option_calls(d, f, fn_by_path, children, force=False):
+    out = []
+    for bi, b in enumerate(f["blocks"]):
+        t = b["term"]
+        if b["cleanup"] or b.get("opt_desugared") or not _is_option_call(t):
+            continue
+        name = t["f"]["name"]
+        cl_ops = [a for a in t["args"][1:]]
+        cls = [_closure_of(d, fn_by_path, f, o)[0] for o in cl_ops]
+        want = {"is_none_or": [0], "is_some_and": [0], "map_or": [1], "map_or_else": [0, 1], "map": [0], "and_then": [0], "unwrap_or_else": [0], "filter": [0], "or_else": [0]}[name]
+        if len(cls) <= max(want) or any(cls[i] is None for i in want):
+            continue  # a function item or another callable, not a closure
+        used = [cls[i] for i in want]
+        if not force and not any(_calls_local(c, fn_by_path, children) for c in used):
+            continue
+        ln = t.get("s")
+        out.append((bi, ln if isinstance(ln, int) else (ln[0] if ln else 0)))
+    return out
 
 
 def desugar_loop_source(cx, fn_by_path, ib, stages, nb, line):
@@ -562,6 +700,30 @@ def desugar_function(d, f, force=True):
         except Exception:
             f["blocks"], f["locals"] = backup
             f["blocks"][ib]["loop_desugared"] = True
+    n += _option_pass(d, f, fn_by_path, children, force)
+    return n
+
+
+def _option_pass(d, f, fn_by_path, children, force, summary=None):
+    n = 0
+    for _ in range(12):
+        found = find_option_calls(d, f, fn_by_path, children, force=force)
+        if not found or len(f["blocks"]) > MAX_BLOCKS:
+            break
+        bi, line = found[0]
+        backup = (copy.deepcopy(f["blocks"]), copy.deepcopy(f["locals"]))
+        try:
+            inl = desugar_option_call(_Ctx(d, f), fn_by_path, bi, line)
+            f.setdefault("inlined", []).extend(inl)
+            if summary is not None:
+                summary["options"] = summary.get("options", 0) + 1
+                summary["closures_inlined"].extend(inl)
+            n += 1
+        except Exception as e:
+            f["blocks"], f["locals"] = backup
+            f["blocks"][bi]["opt_desugared"] = True
+            if summary is not None:
+                summary["skipped"].append("%s: %s" % (f["path"], e))
     return n
 
 
@@ -629,6 +791,14 @@ def apply(d):
                 f["blocks"], f["locals"] = backup
                 f["blocks"][ib]["loop_desugared"] = True
                 summary["skipped"].append("%s: %s" % (f["path"], e))
+    # Option combinators whose closures call local functions
+    for f in order:
+        if f.get("derived") or not f.get("local", True):
+            continue
+        try:
+            _option_pass(d, f, fn_by_path, children, False, summary)
+        except Exception as e:
+            summary["skipped"].append("%s: %s" % (f["path"], e))
     # closures that now live inside their parent are no longer stand-alone bodies
     gone = set(summary["closures_inlined"])
     if gone:
